@@ -410,3 +410,57 @@ Proof.
 Qed.
 
 End NoCrash.
+
+(* ---- the instruction stream is fetched from the same bytes data reads see ---- *)
+Definition is_memdev (d : device) : bool :=
+  match d with DDuart | DMouse => false | _ => true end.
+
+Lemma fetch_half_sees_bytes a b d v b' :
+  get_device a = Some d -> is_memdev d = true ->
+  bus_read_op_half a b = Ok v b' ->
+  b' = b /\ exists x0 x1, mem_read_byte (dev_mem b d) a = ROk x0
+                          /\ mem_read_byte (dev_mem b d) (a + 1) = ROk x1 /\ v = x0 + x1 * 256.
+Proof.
+  intros H M. unfold bus_read_op_half, with_dev. rewrite H.
+  destruct d; try discriminate; cbn [dev_read_byte bind]; unfold lift_r.
+  all: destruct (mem_read_byte _ a) as [x0| |] eqn:E0; cbn [bind]; try discriminate.
+  all: destruct (mem_read_byte _ (a + 1)) as [x1| |] eqn:E1; cbn [bind]; try discriminate.
+  all: intros Q; inversion Q; subst; split; [reflexivity|]; exists x0, x1; auto.
+Qed.
+
+Lemma fetch_word_sees_bytes a b d v b' :
+  get_device a = Some d -> is_memdev d = true ->
+  bus_read_op_word a b = Ok v b' ->
+  b' = b /\ exists x0 x1 x2 x3,
+      mem_read_byte (dev_mem b d) a = ROk x0 /\ mem_read_byte (dev_mem b d) (a + 1) = ROk x1
+      /\ mem_read_byte (dev_mem b d) (a + 2) = ROk x2 /\ mem_read_byte (dev_mem b d) (a + 3) = ROk x3
+      /\ v = x0 + x1 * 256 + x2 * 65536 + x3 * 16777216.
+Proof.
+  intros H M. unfold bus_read_op_word, with_dev. rewrite H.
+  destruct d; try discriminate; cbn [dev_read_byte bind]; unfold lift_r.
+  all: destruct (mem_read_byte _ a) as [x0| |] eqn:E0; cbn [bind]; try discriminate.
+  all: destruct (mem_read_byte _ (a + 1)) as [x1| |] eqn:E1; cbn [bind]; try discriminate.
+  all: destruct (mem_read_byte _ (a + 2)) as [x2| |] eqn:E2; cbn [bind]; try discriminate.
+  all: destruct (mem_read_byte _ (a + 3)) as [x3| |] eqn:E3; cbn [bind]; try discriminate.
+  all: intros Q; inversion Q; subst; split; [reflexivity|]; exists x0, x1, x2, x3; auto 10.
+Qed.
+
+(* data reads of memory devices go to the same memory *)
+Lemma data_read_byte_mem a b d :
+  get_device a = Some d -> is_memdev d = true ->
+  bus_read_byte a b = lift_r b (mem_read_byte (dev_mem b d) a).
+Proof. intros H M. unfold bus_read_byte, with_dev. rewrite H. destruct d; try discriminate; reflexivity. Qed.
+Lemma data_read_half_mem a b d :
+  get_device a = Some d -> is_memdev d = true -> Z.land a 1 = 0 ->
+  bus_read_half a b = lift_r b (mem_read_half (dev_mem b d) a).
+Proof.
+  intros H M A. unfold bus_read_half, with_dev. rewrite A, H. cbn [Z.eqb negb].
+  destruct d; try discriminate; reflexivity.
+Qed.
+Lemma data_read_word_mem a b d :
+  get_device a = Some d -> is_memdev d = true -> Z.land a 3 = 0 ->
+  bus_read_word a b = lift_r b (mem_read_word (dev_mem b d) a).
+Proof.
+  intros H M A. unfold bus_read_word, with_dev. rewrite A, H. cbn [Z.eqb negb].
+  destruct d; try discriminate; reflexivity.
+Qed.
